@@ -4,7 +4,9 @@ import k9
 
 CLAIMS = ("R1 (walker completeness) the scan collector's in-crate call closure visits plans embedded in expressions: since LogicalPlan::children() does not include Expr::{ScalarSubquery, InSubquery, Exists} sub-plans, collect_scans (or a helper it calls) must match on those Expr variants and recurse into their plans; "
           "R2 for a projected scan the pushed-down scan filter is read and its columns are added to the gathered set; an empty set falls back to one carrier column; "
-          "R3 the gather SQL projects an explicit column list (never `*`) built from the required set in provider-schema order.")
+          "R3 the gather SQL projects an explicit column list (never `*`) built from the required set in provider-schema order; "
+          "R4 widest wins when one table is scanned more than once: collect_scans can overwrite an already recorded (pruned) column set with None = all columns (a store of None through the map entry), and extends a recorded set with a later pruned scan's columns; "
+          "R5 execute_gathered registers each gathered result under the table it was gathered for: the per-table gathers are produced from plan.tables itself (no filtering or reordering between the table list and the list it is zipped with).")
 NOT_DECIDED = "that projection pushdown itself computed the right column set; statements whose subqueries are decorrelated (they appear as ordinary joins)."
 
 G = "distributed::gather"
@@ -96,3 +98,38 @@ def run(F, R):
     # schema order: the column list is produced by filtering provider.schema().fields() with set.contains
     okorder = any(c.name.rsplit("::", 1)[-1] == "contains" and "BTreeSet" in c.self_ty for c in F.fam_calls(pg.path))
     R.check(okorder, "C45.R3", "gather-sql:schema-order", "gathered columns are not taken in provider-schema order filtered by the required set", pg.loc(), dict(), nontrivial=False)
+    # ---- R4: widest wins
+    R.rule("C45.R4", "K7 stores through the map entry", "collect_scans: recorded set := None when a later scan is full width; recorded set extended otherwise")
+    MAPGET = ("get_mut", "entry", "get", "into_mut", "or_insert", "or_insert_with")
+    def from_required(op):
+        return derives_from(cs, [op], lambda k, x: (k == "call" and x.name.rsplit("::", 1)[-1] in MAPGET and "BTreeMap" in (x.self_ty or "") + x.name and x) or None)
+    none_store = False
+    for i, j, dst, rv, line in cs.stmts():
+        if dst.endswith("|*") and rv[0] == "use" and not isinstance(rv[1], dict):
+            o = origin(cs, rv[1])
+            if o[0] == "rv" and o[1][0] == "agg" and o[1][1] == "adt:std::option::Option::None" and from_required("c:" + dst[:-2]):
+                none_store = True
+        if dst.endswith("|*") and rv[0] == "agg" and rv[1] == "adt:std::option::Option::None" and from_required("c:" + dst[:-2]):
+            none_store = True
+    ext = [c for c in cs.calls() if c.name.rsplit("::", 1)[-1] in ("extend", "append", "insert") and "BTreeSet" in (c.self_ty or "") and from_required(c.args[0])]
+    R.check(none_store and bool(ext), "C45.R4", "collect_scans:widest-wins", "a table scanned twice keeps the FIRST scan's pruned column set when a later scan reads every column (no store of None through the map entry) - or a later pruned scan's columns are not added: the later scan's columns are not gathered and re-binding the statement fails with Column not found", cs.loc(), dict(overwrite_with_all_columns=none_store, extends_recorded_set=len(ext)))
+    # ---- R5: results are registered under their own table
+    R.rule("C45.R5", "K5 provenance of a zip", "execute_gathered: the list zipped with plan.tables derives from an unfiltered traversal of plan.tables")
+    eg = [g for g in F.family("distributed::coordinator::execute_gathered")]
+    nz = 0
+    for g in eg:
+        for c in g.calls():
+            if c.name.rsplit("::", 1)[-1] != "zip":
+                continue
+            sides = [k9.kexpr(g, a) for a in c.args[:2]]
+            if not any(".tables" in e for e in sides):
+                continue
+            nz += 1
+            FILTERS = ("filter", "filter_map", "skip", "skip_while", "take_while", "step_by", "rev", "retain", "dedup", "sort", "sort_by", "sort_unstable", "flat_map", "flatten")
+            bad5 = []
+            for a in c.args[:2]:
+                w = derives_from(g, [a], lambda k, x: (k == "call" and x.name.rsplit("::", 1)[-1] in FILTERS and x) or None)
+                if w:
+                    bad5.append(w.name.rsplit("::", 1)[-1])
+            R.check(not bad5, "C45.R5", f"execute_gathered:zip#{nz}:aligned", f"one side of the zip with plan.tables went through {sorted(set(bad5))}: the gathered results no longer line up with the table list, so a table's rows are registered under another table's name and the last table is never registered", g.loc(c.bb), dict(sides=[e[:80] for e in sides]))
+    R.floor("C45.R5", "zips with plan.tables in execute_gathered", nz, 1)
